@@ -369,28 +369,38 @@ func (e *Env) index(x *EIndex) (Val, types.Type) {
 	t := e.t
 	v, ty := e.eval(x.X)
 	i, it := e.eval(x.I)
+	// positions are mathematical integers also in bit-vector mode
+	pos := func() Term {
+		if !t.S.bv {
+			return e.lit(i, it, tInt)
+		}
+		if it == untypedInt {
+			return i.T
+		}
+		return t.toInt(i.T, it)
+	}
 	switch u := ty.Underlying().(type) {
 	case *types.Slice:
 		ev := t.elemsVar(u.Elem())
-		idx := e.lit(i, it, tInt)
+		idx := pos()
 		return Val{T: fmt.Sprintf("(select (select %s (sbase %s)) (ix (soff %s) %s))", t.get(e.st, ev.Name), v.T, v.T, idx)}, u.Elem()
 	case *types.Array:
 		if u.Len() < 0 {
-			return Val{T: fmt.Sprintf("(seq_at_%s %s %s)", typeKey(u.Elem()), v.T, e.lit(i, it, tInt))}, u.Elem()
+			return Val{T: fmt.Sprintf("(seq_at_%s %s %s)", typeKey(u.Elem()), v.T, pos())}, u.Elem()
 		}
-		return Val{T: fmt.Sprintf("(select %s %s)", v.T, e.lit(i, it, tInt))}, u.Elem()
+		return Val{T: fmt.Sprintf("(select %s %s)", v.T, pos())}, u.Elem()
 	case *types.Map:
 		_, mv, _ := t.mapVars(u)
 		return Val{T: fmt.Sprintf("(select (select %s %s) %s)", t.get(e.st, mv.Name), v.T, e.coerce(i, it, u.Key()))}, u.Elem()
 	case *types.Basic:
 		if isString(ty) {
-			return Val{T: fmt.Sprintf("(str_at %s %s)", v.T, e.lit(i, it, tInt))}, types.Typ[types.Uint8]
+			return Val{T: fmt.Sprintf("(str_at %s %s)", v.T, pos())}, types.Typ[types.Uint8]
 		}
 	case *types.Pointer:
 		if at, ok := u.Elem().Underlying().(*types.Array); ok {
 			// pointer to array object stored in elems
 			ev := t.elemsVar(at.Elem())
-			return Val{T: fmt.Sprintf("(select (select %s %s) %s)", t.get(e.st, ev.Name), v.T, e.lit(i, it, tInt))}, at.Elem()
+			return Val{T: fmt.Sprintf("(select (select %s %s) %s)", t.get(e.st, ev.Name), v.T, pos())}, at.Elem()
 		}
 	}
 	return e.fail("cannot index %s", ty)
